@@ -16,6 +16,7 @@ A frame whose exit status is not success, or a raise, is a reported failure: inc
 
 from __future__ import annotations
 
+import warnings
 import numpy as np
 
 from .. import runtime as rt
@@ -29,7 +30,7 @@ TIERS = {
     "thorough": {"shards": 16, "budget_s": 540},
 }
 MIN_EVENTS = {"quick": 800, "thorough": 1000}
-DECIDING = {"frame", "variants", "linear-equals-first-order"}
+DECIDING = {"frame", "variants", "failure-reporting", "linear-equals-first-order"}
 RULE = (
     "families N (nonlinear, steady state known by construction, log-variables), L (linear, for the first-order comparison), "
     "G (balanced growth) and S (backward-looking, for period_by_period); shocks sized 0.1-3 std at 0-3 unanticipated and 0-3 "
@@ -373,6 +374,27 @@ def run_case(c, case):
             c.note(f"simulate:raised:{type(exc).__name__}:{str(exc)[:60]}")
         finally:
             _REG.pop(id(m._invariant), None)
+        # ---- error path: a frame that failed must be REPORTED when the caller asks for it (when_fails="error"); the property
+        # speaks about simulations that report success, so a failure that goes unreported turns a failed run into a "success"
+        if res0 is not None:
+            try:
+                failed = [i_ for i_, st in enumerate(res0[1].get("exit_status", ())) if not getattr(st, "is_success", True)]
+            except Exception:
+                failed = []
+            if failed:
+                raised = None
+                try:
+                    with rt.quiet(), np.errstate(all="ignore"), warnings.catch_warnings():
+                        warnings.simplefilter("ignore")
+                        m.simulate(db, span, method=case["method"], when_fails="error", **opts)
+                except Exception as exc:
+                    raised = exc
+                last_only = failed == [len(res0[1].get("exit_status", ())) - 1]
+                c.event("failure-reporting", "failed-frame:" + ("last" if last_only else "not-last"), key=("fail", case["method"], last_only), nontrivial=not last_only)
+                if raised is None:
+                    c.violation("simulate:failed-frame-not-reported",
+                                f"frame(s) {failed} of {len(res0[1].get('exit_status', ()))} reported failure in the run with when_fails='silent', "
+                                f"but the same call with when_fails='error' returned normally", case=case)
         # ---- several data variants in one call: every variant is the simulation of its own data
         if case.get("unant2") is not None and res0 is not None and case["method"] == "stacked_time":
             _two_variant_law(c, m, case, db, span, opts, res0)
